@@ -47,6 +47,61 @@ func Checksum(hrp string, syms []byte) []byte {
 	return out
 }
 
+// ChecksumConst is Checksum for a final polymod constant other than BIP-173's 1 (e.g. the
+// Bech32m constant 0x2bc830a3): the resulting string is NOT valid Bech32.
+func ChecksumConst(hrp string, syms []byte, c uint32) []byte {
+	v := append(HrpExpand(hrp), syms...)
+	v = append(v, 0, 0, 0, 0, 0, 0)
+	pm := Polymod(v) ^ c
+	out := make([]byte, 6)
+	for i := 0; i < 6; i++ {
+		out[i] = byte(pm>>uint(5*(5-i))) & 31
+	}
+	return out
+}
+
+// EncodeSymbolsConst is EncodeSymbols with the checksum computed for the final constant c.
+func EncodeSymbolsConst(hrp string, syms []byte, c uint32) string {
+	lower := AsciiLower(hrp)
+	all := append(append([]byte{}, syms...), ChecksumConst(lower, syms, c)...)
+	out := []byte(hrp)
+	out = append(out, '1')
+	for _, s := range all {
+		out = append(out, Charset[s])
+	}
+	return string(out)
+}
+
+// StateHRP extends prefix by six characters from '!'..'?' (no letters) such that the polymod
+// state after the expanded human-readable part equals target (e.g. 0: a state in which the BCH
+// register holds no information at all). ok = false when the six characters would fall outside
+// the allowed range for this prefix.
+func StateHRP(prefix string, target uint32) (hrp string, ok bool) {
+	lower := AsciiLower(prefix)
+	var v []byte
+	for i := 0; i < len(lower); i++ {
+		v = append(v, lower[i]>>5)
+	}
+	v = append(v, 1, 1, 1, 1, 1, 1, 0) // high bits of the six new characters (0x20..0x3f), separator
+	for i := 0; i < len(lower); i++ {
+		v = append(v, lower[i]&31)
+	}
+	v = append(v, 0, 0, 0, 0, 0, 0)
+	pm := Polymod(v) ^ target
+	out := []byte(prefix)
+	for i := 0; i < 6; i++ {
+		low := byte(pm>>uint(5*(5-i))) & 31
+		if low == 0 { // 0x20 is not allowed in a human-readable part
+			return "", false
+		}
+		out = append(out, 0x20|low)
+	}
+	if Polymod(HrpExpand(AsciiLower(string(out)))) != target {
+		panic("StateHRP: construction failed")
+	}
+	return string(out), true
+}
+
 // EncodeSymbols builds hrp + "1" + charset(syms ++ checksum); hrp is used as given
 // for the text and lower-cased (ASCII) for the checksum. No validity checks at all.
 func EncodeSymbols(hrp string, syms []byte) string {
